@@ -11,11 +11,18 @@
        every byte position moved by exactly that distance (C16_positions_only_shift).
    Hence a re-layout (gaps of whitespace and comments changed between lexemes) changes the token
    list only in its positions, and a lexical error remains the same error, shifted.
-   NOT proved: that the stages after the tokenizer use positions only inside error values (the
-   emitted text does not depend on them); decided per pair by the check (source vs random
-   re-layout through the crate, results compared modulo the hash line / position map). *)
+   AND for the whole pipeline (PositionsProofs.v): if two source texts have the same token contents
+   (same kinds, names and attribute texts — whatever lies between the tokens) and the first is
+   syntactically valid, then `generate` gives, for the same digest argument, the same emitted
+   text byte for byte, or the same error up to the positions it carries
+   (C16_same_tokens_same_result).  The parser, cst_to_ast, validate_ast, the automaton, the
+   table and the emitter are each shown to commute with erasing every stored position
+   (Front/Positions.v, Ast/Positions.v, Emit/Positions.v).
+   NOT proved: the same for a syntax error (its text is the source slice of the offending token);
+   the actual position map of an error after a re-layout.  Decided per pair by the check (source
+   vs random re-layout through the crate, results compared modulo the hash line / position map). *)
 From Coq Require Import List NArith.
-From Kiki Require Import Base.Ord Base.Chars Data Lex.Model Lex.Proofs Lex.Spec.
+From Kiki Require Import Base.Ord Base.Chars Data Lex.Model Lex.Proofs Lex.Spec LR.Driver Front.Parse Emit.Positions Front.Positions Pipeline PositionsProofs.
 
 Theorem C16_whitespace_run_is_skipped : forall src t (l : list (N * char)) rest,
   tz_state t = LMain -> Forall (fun p => is_whitespace (snd p) = true) l ->
@@ -44,7 +51,15 @@ Proof. exact lex_comment_at_eof. Qed.
 Theorem C16_positions_only_shift : forall p s, lex p s = rshift (map (shift_tok p)) p (lex 0 s).
 Proof. exact lex_shift. Qed.
 
+Theorem C16_same_tokens_same_result : forall ho digest src1 src2 toks1 toks2,
+  tokenize src1 = Ok toks1 -> tokenize src2 = Ok toks2 ->
+  map erase_tok toks1 = map erase_tok toks2 ->
+  (forall tok, parse token_kind kiki_ptable (front_fuel (length toks1)) toks1 <> OReject tok) ->
+  rerase same (generate_model ho digest src1) = rerase same (generate_model ho digest src2).
+Proof. exact same_tokens_same_result. Qed.
+
 Print Assumptions C16_whitespace_run_is_skipped.
+Print Assumptions C16_same_tokens_same_result.
 Print Assumptions C16_tokenizer_is_lex.
 Print Assumptions C16_whitespace_only_shifts.
 Print Assumptions C16_comment_only_shifts.
